@@ -81,6 +81,9 @@ func genC20(r *Rng, tier string) *C20Scn {
 	}
 	if c.Fixture == "" {
 		sp, name := genSpec(r, lim)
+		if c.Kind != "build" && r.Chance(0.04) {
+			sp, name = genBigValueSpec(r)
+		}
 		c.Spec, c.Gen = &sp, name
 		keys = sp.Keys
 		mix.Complete, mix.IntWidth = sp.complete(), intWidth(sp.Enc, sp.ValIDs != nil)
@@ -421,6 +424,9 @@ func executeC20(scn *Scenario) *RunResult {
 				chunk := c.Chunk
 				if chunk <= 0 {
 					chunk = len(b)
+				}
+				if chunk < len(b)/2000 {
+					chunk = len(b) / 2000 // bound the number of scribble steps on multi-megabyte buffers
 				}
 				for off := 0; off < len(b); off += chunk {
 					scribble(b, off, off+chunk, c.Pattern, srng, other)
